@@ -7,6 +7,7 @@ DRIVER = 'harness/lr_drv.cpp'
 EXTRACT = 'Extract/LRExtract.v'
 ML = 'lr_model'
 SANITIZE = False
+ENUM = True
 
 MODIFY, LOCK, TRY, TRY_FOR, TRY_UNTIL, READ, RELEASE = 0, 1, 2, 3, 4, 5, 6
 LOCKS = (LOCK, TRY, TRY_FOR, TRY_UNTIL)
@@ -106,6 +107,26 @@ def gen(rng, tier, spec):
     else:
         sched = R.any_sched(rng, nt, 140, cw)
     return {'cfg': [ns] + plan, 'progs': progs, 'sched': sched}
+
+
+def gen_small(rng, spec):
+    """small programs for the exhaustive enumeration: one or two writers against one reader session"""
+    shape = rng.below(5)
+    f, g = rng.range(1, 7), rng.range(1, 7)
+    lock = rng.pick([LOCK, LOCK, TRY, TRY_FOR, TRY_UNTIL])
+    if shape == 0:
+        progs = [[[MODIFY, f]], [[lock, 0], [READ, 0], [RELEASE, 0]]]
+    elif shape == 1:
+        progs = [[[MODIFY, f]], [[lock, 0], [RELEASE, 0], [LOCK, 0], [READ, 0], [RELEASE, 0]]]
+    elif shape == 2:
+        progs = [[[MODIFY, f]], [[MODIFY, g]], [[lock, 0], [READ, 0], [RELEASE, 0]]]
+    elif shape == 3:
+        progs = [[[MODIFY, f], [MODIFY, g]], [[lock, 0], [READ, 0], [RELEASE, 0]]]
+    else:
+        progs = [[[MODIFY, f]], [[lock, 0], [LOCK, 1], [READ, 0], [READ, 1], [RELEASE, 0], [RELEASE, 1]]]
+    nmod = sum(1 for p in progs for o in p if o[0] == MODIFY)
+    plan = [rng.below(4 * nmod)] if rng.chance(1, 3) else []
+    return {'cfg': [2] + plan, 'progs': progs, 'sched': []}
 
 
 # ---------------------------------------------------------------------------- monitors
